@@ -97,16 +97,18 @@ def effective(req_level: typing.Any, pool_level: typing.Any) -> dict[str, typing
     }
 
 
-def run_case(rec: Recorder, pooltype: str, method: str, req_cfg: typing.Any, pool_cfg: typing.Any, seq: list[str]) -> None:
+def run_case(rec: Recorder, pooltype: str, method: str, req_cfg: typing.Any, pool_cfg: typing.Any, seq: list[str], warmup: list[typing.Any] | None = None) -> None:
     import urllib3
     from urllib3.exceptions import HTTPError, MaxRetryError
 
     case = {"pool": pooltype, "method": method, "request_retries": req_cfg, "pool_retries": pool_cfg, "seq": seq}
+    if warmup:
+        case["warmup"] = warmup
     req_r, pool_r = build_retry(req_cfg), build_retry(pool_cfg)
     snap_req, snap_pool = snapshot(req_r), snapshot(pool_r)
     clock0 = 0.0
     net = netsim.Net(None)
-    script = netsim.AttemptScript([outcome_spec(s, 1_700_000_000.0 + net.clock.now) for s in seq])
+    script = netsim.AttemptScript([outcome_spec("200", 0.0) for _ in (warmup or [])] + [outcome_spec(s, 1_700_000_000.0 + net.clock.now) for s in seq])
     net.script = script
     result: typing.Any = None
     exc: BaseException | None = None
@@ -118,11 +120,21 @@ def run_case(rec: Recorder, pooltype: str, method: str, req_cfg: typing.Any, poo
             body = b"payload" if method.upper() in ("POST", "PUT") else None
             if pooltype == "direct":
                 client: typing.Any = urllib3.HTTPConnectionPool("o.test", 80, **({"retries": pool_r} if pool_cfg is not None else {}))
-                result = client.urlopen(method, "/x", body=body, redirect=False, **kw)
+                url = "/x"
             else:
                 client = urllib3.ProxyManager("http://proxy.test:3128", **({"retries": pool_r} if pool_cfg is not None else {}))
                 url = "http://o.test/x" if pooltype == "forward" else "https://o.test/x"
-                result = client.urlopen(method, url, body=body, redirect=False, **kw)
+            # earlier, successful requests on the same client with other per-request policies (0, False, True, 1 ... compare
+            # and hash alike): the policy in effect for the judged request must be its own
+            for w in warmup or []:
+                rec.mon("warmup_request")
+                client.urlopen("GET", url, redirect=False, **({} if w == "unset" else {"retries": build_retry(w)})).drain_conn()
+            if warmup:
+                script.log.clear()
+                net.clock.sleeps.clear()
+                net.clock.sleep_at.clear()
+            n_warm_requests = len([1 for st in net.states for _ in st.server.requests])
+            result = client.urlopen(method, url, body=body, redirect=False, **kw)
         except BaseException as e:  # noqa: BLE001
             if isinstance(e, (KeyboardInterrupt, SystemExit)):
                 raise
@@ -131,7 +143,7 @@ def run_case(rec: Recorder, pooltype: str, method: str, req_cfg: typing.Any, poo
         sleep_at = list(net.clock.sleep_at)
         t_start = 1000.0
         log = [dict(l) for l in script.log]
-        wire_requests = len([1 for st in net.states for _ in st.server.requests])
+        wire_requests = len([1 for st in net.states for _ in st.server.requests]) - (n_warm_requests if warmup else 0)
     rec.mon("case")
     eff = effective(req_cfg, pool_cfg)
     # effective per-attempt outcomes (an outcome that could not apply, e.g. a dial failure on a reused connection, became a 200)
@@ -274,8 +286,8 @@ def random_cfg(rng: typing.Any, stratum: str) -> typing.Any:
     if rng.random() < 0.2:
         cfg["respect_retry_after_header"] = False
     cfg["backoff_factor"] = rng.choice([0, 0, 0.5, 100])
-    if rng.random() < 0.4:
-        cfg["backoff_max"] = 1
+    if rng.random() < 0.5:
+        cfg["backoff_max"] = rng.choice([1, 1, 0, 0.0, 0.3, 7])  # 0: "never sleep between attempts" is a legal cap
     if rng.random() < 0.3:
         cfg["backoff_jitter"] = rng.choice([0.3, 5.0])
     return cfg
@@ -309,6 +321,18 @@ def run_shard(ctx: Ctx, rec: Recorder) -> None:
                     rec.case(["lat", cfg, list(seq), method])
                     run_case(rec, "direct", method, cfg, None, list(seq))
     rec.exhaustive_parts.append(f"Retry lattice ({len(lattice)} configs: total in None/0/1/2/False x one category budget in 0/1) x outcome sequences of length<={L} over {base_alpha} x GET/POST on the direct pool, strided 1/{stride}")
+    # (i-b) the same client used before with another plain per-request policy, then a request that hits an error
+    wi = 0
+    for pooltype in ("direct", "forward"):
+        for w in (0, False, 1, True, 2, "unset"):
+            for pol in (0, False, 1, True, 3):
+                for seq in (["reset"], ["refused"], ["reset", "200"], ["503"], ["rtimeout", "rtimeout", "200"]):
+                    for method in ("GET", "POST"):
+                        wi += 1
+                        if not ctx.mine(wi) or repr(w) == repr(pol):
+                            continue
+                        rec.case(["warm", pooltype, w, pol, seq, method])
+                        run_case(rec, pooltype, method, pol, None, list(seq), warmup=[w])
     # (ii) random configurations, placements, pool types, longer sequences
     n_rand = ctx.pick(9000, 250000)
     for i in range(n_rand):
@@ -334,4 +358,4 @@ def run_shard(ctx: Ctx, rec: Recorder) -> None:
 
 def replay(case: dict[str, typing.Any], ctx: Ctx, rec: Recorder) -> None:
     rec.case(case)
-    run_case(rec, case["pool"], case["method"], case["request_retries"], case["pool_retries"], case["seq"])
+    run_case(rec, case["pool"], case["method"], case["request_retries"], case["pool_retries"], case["seq"], case.get("warmup"))
